@@ -36,5 +36,6 @@ Expect(d) ==
   ELSE IF IsVars(d) THEN (IF d.kind \in VarKinds THEN "variables" ELSE "error")
   ELSE IF d.kind \in ConvKinds THEN "converter" ELSE "error"
 ExpectLines(d) == SettingLines(d.group)
-ExpectMethodLines(d) == SettingLines(d.mgroup)
+\* only the doc comment attached to the method / variable counts (mattach: "doc" | "trailing" | "detached")
+ExpectMethodLines(d) == IF d.mattach = "doc" THEN SettingLines(d.mgroup) ELSE <<>>
 =============================================================================
